@@ -9,14 +9,32 @@ use crate::nd::Nd;
 use ruint::algorithms::LehmerMatrix;
 use ruint::Uint;
 
+/// Euclid on u8, unrolled by macro (at most 12 division steps for 8-bit operands: Fibonacci 233, 144): a loop here
+/// would force the harness-wide unwinding bound up and with it every 64-bit divider of `from_u64`'s loop
 #[inline(always)]
 fn ref_gcd(mut a: u8, mut b: u8) -> u8 {
-    // at most 12 iterations for 8-bit operands (Fibonacci 233, 144)
-    while b != 0 {
-        let t = a % b;
-        a = b;
-        b = t;
+    macro_rules! step {
+        () => {
+            if b != 0 {
+                let t = a % b;
+                a = b;
+                b = t;
+            }
+        };
     }
+    step!();
+    step!();
+    step!();
+    step!();
+    step!();
+    step!();
+    step!();
+    step!();
+    step!();
+    step!();
+    step!();
+    step!();
+    step!();
     a
 }
 
